@@ -456,7 +456,7 @@ func init() {
 			{Name: "PATH-HASEOF", What: "HasEOF reads the last len(magicBlock) bytes and compares them with magicBlock; a stream shorter than the marker is answered false without a read at a negative offset, and io.EOF with a full count from ReadAt is a successful read", Floor: 3, Run: func(c *Ctx, r *Rep, tier string) { ruleHasEOF(c, r, tier); ruleHasEOFEdges(c, r, tier) }},
 			{Name: "ERR-EDGE", What: "in bgzf and bam, once an error is known non-nil every path returns it (or a wrap / another error / after an explicit io.EOF classification); no sentinel other than io.EOF is converted into success", Floor: 40, Run: ruleErrEdge([]string{"bgzf", "bam"})},
 		},
-		Explanation: "The places where a cut or altered stream is detected, decided on every path: the member body is read with io.ReadFull of exactly the size BSIZE announces and a short read is an error (PATH-READFULL, PATH-NEED); a member is accepted only after the gzip reader reported io.EOF, i.e. after compress/gzip verified CRC32 and ISIZE, and oversize payloads are rejected (PATH-EOFDRAIN); the BAM length prefix: both reads' errors are returned, a stream that ends inside a record is not a clean end (PATH-BAMLEN) and a record shorter than its own fields is an error (ERR-LATCH); no I/O error in bgzf/bam is dropped (ERR-1); HasEOF compares exactly the trailing marker.",
+		Explanation: "The places where a cut or altered stream is detected, decided on every path: the member body is read with io.ReadFull of exactly the size BSIZE announces and a short read is an error (PATH-READFULL, PATH-NEED); a member is accepted only after the gzip reader reported io.EOF, i.e. after compress/gzip verified CRC32 and ISIZE, and oversize payloads are rejected (PATH-EOFDRAIN); the BAM length prefix: both reads' errors are returned, a stream that ends inside a record is not a clean end (PATH-BAMLEN) and a record shorter than its own fields is an error (ERR-LATCH); no I/O error in bgzf/bam is dropped (ERR-1); HasEOF compares exactly the trailing marker, does not ask for a negative offset and takes io.EOF with a full count for a read (PATH-HASEOF); the binary BAM header never passes on the io.EOF of a read after its magic number (EOF-MID-HEADER).",
 		NotDecided:  "that a flipped byte is always caught (rests on CRC32 – trusted arithmetic), clean-end-only-at-boundaries as a value statement.",
 		Assumptions: []string{"compress/gzip verifies CRC32 and ISIZE before returning io.EOF"},
 	})
